@@ -4,7 +4,8 @@
    The SIGHUP handler is ONE goroutine; for every signal it runs, in this order (main.go:252-275),
 
        conf, err = loadConfig(configPath)              HParse     read the config and the ClientConf file
-       processor.ReloadSubnets()                       HSubnets   install the selector parsed from the subnets file
+       processor.ReloadSubnets()                       HSubnets   install the selector parsed from the subnets file;
+                                                                  on failure: log, abort this reload
        apiRegServer.NewClientConf(conf.latest...)      HApi       hand the ClientConf to the API registrar
        dnsRegServer.UpdateLatestCCGen(generation)      HDns       hand its generation to the DNS registrar
 
@@ -36,11 +37,16 @@ Record pub := mkP {
   p_subok : bool         (* the subnets file parses *)
 }.
 
-Inductive hstep := HParse | HSubnets | HApi | HDns.
+(* HSubnets: when ReloadSubnets fails the handler ABORTS the reload (`continue`): the front ends are not
+   touched.  HSubnetsNoAbort is the variant that logs the failure and goes on (what main.go did before
+   the fix recorded in known_findings.json); it is kept to show that the abort is needed. *)
+Inductive hstep := HParse | HSubnets | HSubnetsNoAbort | HApi | HDns.
 
 Definition pinned_order : list hstep := [HParse; HSubnets; HApi; HDns].
 (* the reordering "in-memory updates first, the step that can fail last" *)
 Definition swapped_order : list hstep := [HParse; HApi; HDns; HSubnets].
+(* "log the failure of ReloadSubnets and carry on" *)
+Definition noabort_order : list hstep := [HParse; HSubnetsNoAbort; HApi; HDns].
 
 (* the handler's program for a sequence of signals *)
 Definition hprog (ord : list hstep) (pubs : list pub) : list (hstep * pub) :=
@@ -55,6 +61,11 @@ Definition hexec (s : rstate) (conf : option nat) (a : hstep * pub) : rstate * o
   match h with
   | HParse => (s, p_cc P)
   | HSubnets =>
+    match conf with
+    | Some _ => if p_subok P then (mkR (p_set P) (p_gens P) (r_api s) (r_dns s), conf) else (s, None)
+    | None => (s, conf)
+    end
+  | HSubnetsNoAbort =>
     match conf with
     | Some _ => if p_subok P then (mkR (p_set P) (p_gens P) (r_api s) (r_dns s), conf) else (s, conf)
     | None => (s, conf)
@@ -146,6 +157,11 @@ Fixpoint handler_ok (G : list nat) (conf : option nat) (todo : list (hstep * pub
     | HParse => handler_ok G (p_cc P) r
     | HSubnets =>
       match conf with
+      | Some _ => if p_subok P then incl_b G (p_gens P) && handler_ok (p_gens P) conf r else handler_ok G None r
+      | None => handler_ok G conf r
+      end
+    | HSubnetsNoAbort =>
+      match conf with
       | Some _ => if p_subok P then incl_b G (p_gens P) && handler_ok (p_gens P) conf r else handler_ok G conf r
       | None => handler_ok G conf r
       end
@@ -154,9 +170,9 @@ Fixpoint handler_ok (G : list nat) (conf : option nat) (todo : list (hstep * pub
   end.
 
 (* the hypothesis on what the operator publishes, as a chain from the installed generations G:
-   a subnets file keeps the generations of its predecessor and contains the generation of the
-   ClientConf published with it; when the subnets file does not parse the ClientConf generation is
-   one the installed set already has *)
+   a subnets file THAT LOADS keeps the generations of its predecessor and contains the generation of
+   the ClientConf published with it.  Nothing is assumed about publications whose ClientConf or
+   subnets file does not load: any subset of the reloads may fail. *)
 Fixpoint chain_ok (G : list nat) (pubs : list pub) : bool :=
   match pubs with
   | [] => true
@@ -165,7 +181,7 @@ Fixpoint chain_ok (G : list nat) (pubs : list pub) : bool :=
     | None => chain_ok G r
     | Some n =>
       if p_subok P then incl_b G (p_gens P) && mem n (p_gens P) && chain_ok (p_gens P) r
-      else mem n G && chain_ok G r
+      else chain_ok G r
     end
   end.
 
